@@ -385,6 +385,7 @@ impl<D: Device, P: Protocol, S: Socket, TS: TimeSource> GenericCloud<D, P, S, TS
             if self.peers.remove(&addr).is_some() {
                 #[cfg(dswd_vpncloud_verif)]
                 crate::verif::probe(crate::verif::Event::PeerRemoved { addr, reason: "crypto" });
+                self.table.remove_claims(addr);
                 if let Err(e) = self.connect_sock(addr) {
                     result = Err(e)
                 }
